@@ -125,16 +125,22 @@ func c05Run(c *run.Ctx, ci int, k c05Case) {
 	caseID := fmt.Sprint(ci)
 	s.CaseID = caseID
 	granted := k.Granted
+	// what the authorization request asks for as audience: everything the registration allows, or (every other case) only
+	// the first audience - the resource owner may then grant one that was never requested (a default audience added at consent)
+	reqAud := allAud
+	if ci%2 == 0 {
+		reqAud = allAud[:1]
+	}
 	var g *sim.Grant
 	switch k.Origin {
 	case "code":
 		// partial consent: more is requested (scopes and audiences the registration allows) than the resource owner grants
 		req := addUnique(append([]string{}, granted...), "fosite")
-		g = s.Authorize(sim.AuthzReq{Client: k.Client, RT: "code", Scopes: req, Granted: granted, Aud: allAud, GrantAud: append([]string{}, k.Aud...)})
+		g = s.Authorize(sim.AuthzReq{Client: k.Client, RT: "code", Scopes: req, Granted: granted, Aud: reqAud, GrantAud: append([]string{}, k.Aud...)})
 	case "hybrid":
 		granted = append([]string{"openid"}, granted...)
 		req := addUnique(append([]string{}, granted...), "fosite")
-		g = s.Authorize(sim.AuthzReq{Client: k.Client, RT: "code id_token", Scopes: req, Granted: granted, Aud: allAud, GrantAud: append([]string{}, k.Aud...)})
+		g = s.Authorize(sim.AuthzReq{Client: k.Client, RT: "code id_token", Scopes: req, Granted: granted, Aud: reqAud, GrantAud: append([]string{}, k.Aud...)})
 	case "password":
 		g = s.Password(k.Client, granted)
 	case "device":
@@ -207,7 +213,11 @@ func c05Run(c *run.Ctx, ci int, k c05Case) {
 		dc.Scopes = []string{"unrelated"}
 		narrowed = len(g.Scopes) > 0
 	case "drop-aud":
-		if len(g.Aud) > 0 {
+		if len(g.Aud) > 1 && ci%4 == 0 {
+			// only the audience that was granted without having been requested goes; the requested one stays registered
+			dc.Audience = []string{"https://api.example/x"}
+			narrowed = true
+		} else if len(g.Aud) > 0 {
 			dc.Audience = []string{"https://api.example/none"}
 			narrowed = true
 		}
